@@ -86,6 +86,16 @@ GAdvance ==
   \E tie \in R({"reply", "timer"}) :
     Step([In0 EXCEPT !.op = "advance", !.ms = ms], CAdvanceFx(CCur, ms, tie, "lo"))
 
+\* the router keeps streaming results for a call that was cancelled (it is slow to honour the CANCEL) ...
+GStream ==
+  LET cs == {g \in Active(CCur) : ops[g].st = "canceling"} IN
+  IF cs = {} \/ ~conn THEN GReply
+  ELSE \E g \in R(cs) : \E mk \in W(<<"RESULTP", "RESULTP", "RESULT">>) :
+         Step([In0 EXCEPT !.op = "reply", !.id = ops[g].req, !.mk = mk, !.a = N], ReplyFx(CCur, ops[g].req, mk, N))
+\* ... at intervals shorter than the response timeout
+GAdvPart == \E tie \in R({"reply", "timer"}) :
+              Step([In0 EXCEPT !.op = "advance", !.ms = (rt * 3) \div 5], CAdvanceFx(CCur, (rt * 3) \div 5, tie, "lo"))
+
 GCancel ==
   LET cs == {g \in Active(CCur) : ops[g].kind = "call" /\ ops[g].st = "waiting"} IN
   IF cs = {} THEN GApi
@@ -106,7 +116,7 @@ GIntr ==
 
 GRelease ==
   IF DOMAIN invs = {} THEN GInv
-  ELSE \E inv \in R(IF Running(CCur) # {} THEN Running(CCur) ELSE DOMAIN invs) : \E how \in W(<<"yield", "yield", "error", "prog", "prog">>) :
+  ELSE \E inv \in R(IF Running(CCur) # {} THEN Running(CCur) ELSE DOMAIN invs) : \E how \in (IF deaf THEN W(<<"yield", "yield", "error">>) ELSE W(<<"yield", "yield", "error", "prog", "prog">>)) :
          IF how = "prog"
          THEN inv \in Running(CCur) /\ Step([In0 EXCEPT !.op = "sendprog", !.inv = inv], SendProgFx(CCur, inv))
          ELSE Step([In0 EXCEPT !.op = "release", !.inv = inv, !.how = how], ReleaseFx(CCur, inv, how))
@@ -149,13 +159,29 @@ GDisconnect ==
 
 GClose == IF closed \/ closing # 0 THEN GAdvance ELSE Step([In0 EXCEPT !.op = "close"], CloseFx(CCur))
 
+\* towards a running invocation, one useful step at a time: register, have it acknowledged, invoke
+GSetup ==
+  IF ~conn THEN GApi
+  ELSE IF Rng(cregs) = {}
+  THEN LET w == {g \in Active(CCur) : ops[g].kind = "reg" /\ ops[g].st = "waiting"} IN
+       IF w # {} THEN \E g \in R(w) : Step([In0 EXCEPT !.op = "reply", !.id = ops[g].req, !.mk = "REGISTERED", !.a = 100 + N],
+                                              ReplyFx(CCur, ops[g].req, "REGISTERED", 100 + N))
+       ELSE IF Idle = {} THEN GAdvance
+       ELSE \E g \in R(Idle) : \E name \in R(Procs) :
+              Step([In0 EXCEPT !.op = "api", !.g = g, !.kind = "reg", !.name = name], ApiFx(CCur, g, "reg", name, FALSE, 0))
+  ELSE \E reg \in R(Rng(cregs)) : \E rp \in R(BOOLEAN) :
+         Step([In0 EXCEPT !.op = "inv", !.reg = reg, !.inv = lastinv + 1, !.prog = rp], InvocationRpFx(CCur, reg, lastinv + 1, 0, rp))
+
+\* the router stops reading while an invocation handler is running; from then on it only talks
+GDeaf == IF conn /\ ~deaf /\ Running(CCur) # {} THEN Step([In0 EXCEPT !.op = "deaf"], DeafFx(CCur)) ELSE GSetup
+
 GenNext ==
   /\ Len(h) < Depth
-  /\ \E kind \in W(KindBag) :
+  /\ \E kind \in (IF deaf THEN W(<<"release", "release", "intr", "adv", "disc", "close", "close">>) ELSE W(KindBag)) :
        CASE kind = "api" -> GApi [] kind = "reply" -> GReply [] kind = "sched" -> GSched [] kind = "adv" -> GAdvance
          [] kind = "cancel" -> GCancel [] kind = "inv" -> GInv [] kind = "intr" -> GIntr [] kind = "release" -> GRelease
          [] kind = "event" -> GEvent [] kind = "hostile" -> GHostile [] kind = "disc" -> GDisconnect [] kind = "close" -> GClose [] kind = "dupinv" -> GDupInv
-         [] kind = "slow" -> GCancel [] kind = "callp" -> GCallProg
+         [] kind = "slow" -> GCancel [] kind = "callp" -> GCallProg [] kind = "deaf" -> GDeaf [] kind = "setup" -> GSetup [] kind = "stream" -> GStream [] kind = "advpart" -> GAdvPart
          [] OTHER -> GAdvance
 
 GenInit == h = <<>> /\ \E t \in {1000, 200} : CInitWith(t)
